@@ -22,11 +22,13 @@ def nonceGate (disableNonceCheck : Bool) (txNonce stateNonce : Nat) : Gate :=
   else if txNonce < stateNonce then .fallback
   else .committed
 
-/-- revm's in-order nonce validation (with the explicit overflow classification of
-    `reject_nonce_overflow`): `none` = acceptable. Reasons: 0 overflow, 1 too high, 2 too low. -/
+/-- revm's in-order nonce validation: `validate_tx_env` rejects a transaction whose nonce is
+    `u64::MAX` unconditionally (even with the nonce check disabled, and whatever the state); then
+    `validate_against_state` compares with the state nonce unless the check is disabled.
+    `none` = acceptable. Reasons: 0 overflow, 1 too high, 2 too low. -/
 def nonceInvalid (disableNonceCheck : Bool) (txNonce stateNonce : Nat) : Option Nat :=
-  if disableNonceCheck then none
-  else if txNonce = U64_MAX ∧ stateNonce = U64_MAX then some 0
+  if txNonce = U64_MAX then some 0
+  else if disableNonceCheck then none
   else if txNonce > stateNonce then some 1
   else if txNonce < stateNonce then some 2
   else none
